@@ -24,7 +24,10 @@ Record kraw := {
   k_env : bool;                 (* envelope decodes *)
   k_pk : N;                     (* address id of the claimed signer *)
   k_black : bool;               (* the claimed public key is blacklisted (signature.go:98) *)
-  k_sigvalid : bool;            (* Ed25519 over SHA-512/256(tx context for this chain || blob) verifies *)
+  k_small_a : bool;             (* the public key bytes decode to a point of small order *)
+  k_small_r : bool;             (* the R half of the signature decodes to a point of small order *)
+  k_sigvalid : bool;            (* the (cofactored) Ed25519 equation holds over SHA-512/256(tx context for
+                                   this chain || blob), small orders and non-canonical encodings tolerated *)
   k_tx : option ktx             (* blob decodes *)
 }.
 
@@ -52,8 +55,8 @@ Definition enc_tx (len : N) (t : ktx) : bytes :=
 Definition k_dec_env (r : kraw) : option envelope :=
   if k_env r then
     Some {| e_blob := match k_tx r with Some t => enc_tx (k_len r) t | None => [] end;
-            e_pk := [k_pk r; if k_black r then 1 else 0];
-            e_sig := (if k_sigvalid r then 1 else 0) :: repeat 0 63 |}
+            e_pk := [k_pk r; if k_black r then 1 else 0; if k_small_a r then 1 else 0];
+            e_sig := (if k_sigvalid r then 1 else 0) :: (if k_small_r r then 1 else 0) :: repeat 0 62 |}
   else None.
 
 Definition k_dec_tx (b : bytes) : option tx :=
@@ -103,7 +106,7 @@ Definition k_exec (P : kparams) (l : list (N * N)) (pk : bytes) (t : tx) : list 
   | _ => (l, false)
   end.
 
-Definition kcfg (P : kparams) (SEPc : bytes) (txctx : ctx_spec) (chainc : bytes)
+Definition kcfg (P : kparams) (SEPc : bytes) (txctx : ctx_spec) (chainc : bytes) (allowA allowR : bool)
   : cfg (list (N * N)) kraw :=
   {| raw_len := k_len;
      dec_env := k_dec_env;
@@ -111,6 +114,10 @@ Definition kcfg (P : kparams) (SEPc : bytes) (txctx : ctx_spec) (chainc : bytes)
      hashf := fun b => b;
      sig_ok := k_sig_ok;
      blacklisted := fun pk => nth 1 pk 0 =? 1;
+     allow_small_A := allowA;
+     allow_small_R := allowR;
+     small_order_A := fun pk => nth 2 pk 0 =? 1;
+     small_order_R := fun sg => nth 1 sg 0 =? 1;
      addr_of := fun pk => hd 0 pk;
      reserved := fun a => existsb (N.eqb a) (p_reserved P);
      is_system := fun m => hd 0 m =? 1;
@@ -153,10 +160,10 @@ Definition kcase : Type := (kparams * list N * list (N * N) * list (N * N) * lis
 (* classes per transaction, post nonces and post balances of the tracked ids *)
 Definition kout : Type := (list N * list N * list N)%type.
 
-Definition run_block (SEPc : bytes) (txctx : ctx_spec) (c : kcase) : kout :=
+Definition run_block (SEPc : bytes) (txctx : ctx_spec) (allowA allowR : bool) (c : kcase) : kout :=
   let '(P, ids, ns, bs, raws) := c in
   (* any non-empty chain context: the verdict of the verifier is an input *)
-  let C := kcfg P SEPc txctx [1] in
+  let C := kcfg P SEPc txctx [1] allowA allowR in
   let '(s', rs) := deliver_all C {| nonces := ns; rest := bs |} raws in
   (map obs rs, map (nonce_of s') ids, map (bal (rest s')) ids).
 
